@@ -124,7 +124,7 @@ def rand_key(rng, known):
 
 
 SM_KEYS = ["TITLE", "SUBTITLE", "ARTIST", "BANNER", "OFFSET", "BPMS", "STOPS", "ATTACKS", "DISPLAYBPM", "BGCHANGES", "FREEZES", "ANIMATIONS", "CREDIT", "MUSIC", "SELECTABLE"]
-SM_EDIT_KEYS = SM_KEYS + ["VERSION", "VERSION", "NOTES2", "NOTEDATA2", "NOTE"]      # an SM simfile may carry a VERSION property too
+SM_EDIT_KEYS = SM_KEYS + ["VERSION", "VERSION", "NOTES2", "NOTEDATA2", "NOTE", "VERSION 2", "VERSION-SM", "VERSION.MINOR", "VERSION ", "VERSIONS", "XVERSION"]      # an SM simfile may carry a VERSION property too
 SSC_KEYS = SM_KEYS + ["VERSION", "WARPS", "DELAYS", "LABELS", "ORIGIN", "JACKET", "COMBOS"]
 CHART_KEYS = ["CHARTNAME", "STEPSTYPE", "DESCRIPTION", "CHARTSTYLE", "DIFFICULTY", "METER", "RADARVALUES", "CREDIT", "BPMS", "OFFSET", "DISPLAYBPM", "ATTACKS", "MUSIC", "STOPS", "WARPS"]
 
